@@ -632,6 +632,13 @@ def do_enum(w, op):
     for l in labs:
         if l < n and l not in rmap:
             w.fail("enumerated_label_discipline", "%s uses label %d < num_binary_variables=%d that is not in the mapping" % (where, l, n))
+    # a label of the form can only stand for a model variable if that variable occurs in a term of the model (boolean<->spin
+    # conversion keeps every such variable); every other label is an ancilla and must be strictly larger than all mapping labels
+    own = {mapping[v] for v in stored.variables() if v in mapping}
+    for l in sorted(labs - own):
+        if l in rmap or l < n:
+            w.fail("enumerated_label_discipline", "%s uses label %d for an ancilla, but the mapping assigns %d to variable %r (num_binary_variables=%d); "
+                   "ancillas must get strictly larger, unused labels" % (where, l, l, rmap.get(l), n))
     anc = sorted(l for l in labs if l >= n)
     if anc:
         w.probe("reduction_ancillas")
